@@ -3,9 +3,10 @@
 # Confirms: patch applies to /repo HEAD, demo fails with / passes without, tests green with; then runs the quick checks
 # against a scratch copy with the patch (FLODYM_SRC) and stores everything under /verif/seeded/<id>/.
 id=$1; shift
-checks=${@:-$id}
+prop=${id:0:3}
+checks=${@:-$prop}
 wt=/tmp/seedwork/wt_$id
-dst=/verif/seeded/$id
+dst=/verif/seeded/${id/r2/_2}
 [ -f $wt/_seed/patch.diff ] || { echo "no patch in $wt/_seed"; exit 2; }
 scratch=$(mktemp -d /tmp/seedtry_XXXX)
 rsync -a --exclude .git --exclude __pycache__ --exclude _seed --exclude '*.ipynb' /repo/ $scratch/repo/
